@@ -61,7 +61,13 @@ def verify(i):
         m = re.search(r"func (Test\w+)", open(demo).read())
         names = re.findall(r"func (Test\w+)\(", open(demo).read())
         runpat = "^(" + "|".join(names) + ")$"
-        rc0, out0 = sh(["go", "test", "-vet=off", "-count=1", "-run", runpat, "./pkg/ggql/"], cwd=wt)
+        # a demonstration of a pure data race says so in its README: it is run under the race detector
+        race = []
+        rd = os.path.join(d, "README.md")
+        if os.path.exists(rd) and re.search(r"-race` is required|requires? `?-race|needs? `?-race|[Oo]nly the race detector|needs -race|must be run with `?-race", open(rd).read()):
+            race = ["-race"]
+            res["demo_under_race_detector"] = True
+        rc0, out0 = sh(["go", "test"] + race + ["-vet=off", "-count=1", "-run", runpat, "./pkg/ggql/"], cwd=wt)
         res["demo_without_change"] = "PASS" if rc0 == 0 else "FAIL"
         rc, out = sh(["git", "apply", os.path.join(d, "patch.diff")], cwd=wt)
         res["patch_applies"] = rc == 0
@@ -70,7 +76,7 @@ def verify(i):
         else:
             rcb, outb = sh(["go", "build", "./..."], cwd=wt)
             res["builds"] = rcb == 0
-            rc1, out1 = sh(["go", "test", "-vet=off", "-count=1", "-run", runpat, "./pkg/ggql/"], cwd=wt)
+            rc1, out1 = sh(["go", "test"] + race + ["-vet=off", "-count=1", "-run", runpat, "./pkg/ggql/"], cwd=wt)
             res["demo_with_change"] = "FAIL" if rc1 != 0 else "PASS"
             res["demo_output_tail"] = out1[-600:]
             os.remove(demo)
